@@ -1,5 +1,6 @@
 import Vata.Parse
 import Vata.MtbddOps
+import Vata.RcStoreX
 /-! # Driver side of MTBDD histories (`mth`): properties C17 (operations, canonicity) and C18 (node lifetime) -/
 open Vata Vata.M
 
@@ -70,8 +71,24 @@ def parsePair? (s : String) : Option (Nat × Nat) :=
 
 abbrev Ent := Node Int × Int     -- root, default value
 
+/-! the STORE-level model (`Vata/RcStoreX.lean`: reference counts, the two unique tables, `defaultValue_` per handle; theorems
+`C18_ext_*`, `C18_relative_release`, `C17_store_*`) runs beside the tree-level one.  Leaves of the store model are `Nat`: the
+harness' `int` leaves are coded by the zig-zag bijection, the leaf operations are conjugated with it (the store only ever
+compares leaves for equality). -/
+def encZ (x : Int) : Nat := if x ≥ 0 then 2 * x.toNat else 2 * (-x).toNat - 1
+def decZ (n : Nat) : Int := if n % 2 == 0 then Int.ofNat (n / 2) else - Int.ofNat ((n + 1) / 2)
+
+def fnsOf (o1 o2 o3 : Nat) : Vata.RcSX.Fns :=
+  ⟨fun a => encZ (op1 o1 (decZ a)), fun a b => encZ (op2 o2 (decZ a) (decZ b)), fun a b c => encZ (op3 o3 (decZ a) (decZ b) (decZ c))⟩
+
+def stepsX (x : Vata.RcSX.XStore) (F : Vata.RcSX.Fns) (ops : List Vata.RcSX.Op) : Vata.RcSX.XStore := ops.foldl (Vata.RcSX.stepX F) x
+
+/-- values of handle `h` of the store model on all total assignments of `NQ` variables -/
+def valuesX (x : Vata.RcSX.XStore) (h : Nat) : Option (List Int) :=
+  (Vata.RcS.find h x.st.hs).map (fun r => (List.range (2 ^ NQ)).map (fun n => decZ (Vata.RcS.denote x.st r (fun i => n.testBit i))))
+
 partial def go (rc : Bool) (steps res : List String) (k : Nat) (pool : List (Option Ent)) (base : Nat × Nat) (f : List String)
-    : Except String (List String) :=
+    (xs : Vata.RcSX.XStore := Vata.RcSX.xempty) (leaky : Bool := false) : Except String (List String) :=
   match steps with
   | [] => pure f
   | st :: rest => do
@@ -84,40 +101,59 @@ partial def go (rc : Bool) (steps res : List String) (k : Nat) (pool : List (Opt
       getE ((pool[ix]?).join) s!"dead entry in {st}"
     let mut f := f
     let mut pool' := pool
+    let mut xs' := xs
+    let mut leaky' := leaky
+    let nw := pool.length          -- the handle name of a new pool entry in the store model
+    let f0 := fnsOf 0 0 0
     match op with
     | "con" =>
       let a ← argA 1; let v ← argN 2; let d ← argN 3
       pool' := pool ++ [some (construct a (Int.ofNat v) (Int.ofNat d), Int.ofNat d)]
-    | "leaf" => let v ← argN 1; pool' := pool ++ [some (.leaf (Int.ofNat v), Int.ofNat v)]
-    | "copy" => pool' := pool ++ [some (← ent 1)]
-    | "assign" => let ix ← argN 1; let _ ← ent 1; pool' := pool.set ix (some (← ent 2))
-    | "selfassign" => let _ ← ent 1; pure ()
-    | "kill" => let ix ← argN 1; let _ ← ent 1; pool' := pool.set ix none
+      xs' := stepsX xs f0 [.construct nw a (encZ (Int.ofNat v)) (encZ (Int.ofNat d))]
+    | "leaf" =>
+      let v ← argN 1; pool' := pool ++ [some (.leaf (Int.ofNat v), Int.ofNat v)]
+      xs' := stepsX xs f0 [.construct nw [] (encZ (Int.ofNat v)) (encZ (Int.ofNat v))]
+    | "copy" => pool' := pool ++ [some (← ent 1)]; xs' := stepsX xs f0 [.copy (← argN 1) nw]
+    | "assign" =>
+      let ix ← argN 1; let _ ← ent 1; pool' := pool.set ix (some (← ent 2))
+      xs' := stepsX xs f0 [.assign (← argN 2) ix]
+    | "selfassign" => let _ ← ent 1; xs' := stepsX xs f0 [.assign (← argN 1) (← argN 1)]
+    | "kill" => let ix ← argN 1; let _ ← ent 1; pool' := pool.set ix none; xs' := stepsX xs f0 [.destroy ix]
     | "ap1" =>
       let (a, d) ← ent 1; let o ← argN 2
       pool' := pool ++ [some (apply1 (op1 o) a, op1 o d)]
+      xs' := stepsX xs (fnsOf o 0 0) [.apply1 (← argN 1) nw]
     | "ap2" =>
       let (a, d) ← ent 1; let (b, e) ← ent 2; let o ← argN 3
       pool' := pool ++ [some (apply2 (op2 o) a b, op2 o d e)]
+      xs' := stepsX xs (fnsOf 0 o 0) [.apply (← argN 1) (← argN 2) nw]
     | "ap2to" =>
       let ix ← argN 1
       let (a, d) ← ent 1; let (b, e) ← ent 2; let o ← argN 3
       pool' := pool.set ix (some (apply2 (op2 o) a b, op2 o d e))
+      -- `x = fn(x, y)`: a temporary, copy-assignment, destruction of the temporary
+      xs' := stepsX xs (fnsOf 0 o 0) [.apply ix (← argN 2) (1000000 + k), .assign (1000000 + k) ix, .destroy (1000000 + k)]
     | "ap3" =>
       let (a, d) ← ent 1; let (b, e) ← ent 2; let (c, g) ← ent 3; let o ← argN 4
       pool' := pool ++ [some (apply3 (op3 o) a b c, op3 o d e g)]
+      xs' := stepsX xs (fnsOf 0 0 o) [.apply3 (← argN 1) (← argN 2) (← argN 3) nw]
     | "proj" =>
       let (a, d) ← ent 1; let mask ← argN 2; let o ← argN 3
       pool' := pool ++ [some (project (fun x => mask.testBit x) (op2 o) a, d)]
+      xs' := stepsX xs (fnsOf 0 o 0) [.project (← argN 1) nw ((List.range 64).filter (fun x => mask.testBit x))]
+      leaky' := true      -- `Project` leaves count-0 nodes in the unique tables (`C18_ext_project_leaks`): sizes are not compared afterwards
     | "ren" =>
       let (a, d) ← ent 1; let off ← argN 2
       pool' := pool ++ [some (rename (fun x => x + off) a, d)]
+      xs' := stepsX xs f0 [.rename (← argN 1) nw ((List.range 64).map (· + off))]
     | "ext" =>
       let (a, d) ← ent 1; let asg ← argA 2; let off ← argN 3
       pool' := pool ++ [some (extendWith asg off a d, d)]
+      xs' := stepsX xs f0 [.extendWith (← argN 1) nw asg off]
     | "pre" =>
       let (a, d) ← ent 1; let asg ← argA 2; let off ← argN 3
       pool' := pool ++ [some (getPrefix asg off a, d)]
+      xs' := stepsX xs f0 [.getPrefix (← argN 1) nw asg off]
     | "paths" =>
       let (a, _) ← ent 1
       let got ← getE (kv res s!"paths{k}") "missing paths"
@@ -130,6 +166,8 @@ partial def go (rc : Bool) (steps res : List String) (k : Nat) (pool : List (Opt
       let got ← getE ((kv res s!"getv{k}") >>= String.toInt?) "missing getv"
       if got != getValue a q then f := f ++ [s!"violation step {k} GetValue({showAsgn q})={got} model={getValue a q}"]
     | _ => throw s!"unknown step {st}"
+    -- the store-level model: no internal error, the same values through every live handle, the same unique-table sizes
+    if xs'.st.err then f := f ++ [s!"mismatch step {k} ({op}): the store model reports an internal error (fuel / dangling)"]
     -- after the step: values of every live diagram on all assignments, equality matrix, table sizes
     let liveIx := (List.range pool'.length).filter (fun i => (pool'[i]?.join).isSome)
     for i in liveIx do
@@ -138,6 +176,8 @@ partial def go (rc : Bool) (steps res : List String) (k : Nat) (pool : List (Opt
         let got ← getE ((kv res s!"{k}.{i}") >>= parseInts?) s!"missing values {k}.{i}"
         if got != valuesOf a then
           f := f ++ [s!"violation step {k} ({op}): diagram {i} denotes {got.take 16}… but its value is {(valuesOf a).take 16}… (pointwise)"]
+        else if valuesX xs' i != some got then
+          f := f ++ [s!"mismatch step {k} ({op}): diagram {i}: the store model denotes {((valuesX xs' i).getD []).take 16}…, the implementation {got.take 16}…"]
       | none => pure ()
     let roots := liveIx.filterMap (fun i => (pool'[i]?.join).map (·.1))
     let eq ← getE (kv res s!"eq{k}") "missing eq"
@@ -148,7 +188,12 @@ partial def go (rc : Bool) (steps res : List String) (k : Nat) (pool : List (Opt
     let exp := tableSizes roots
     if rc && (sz.1 != base.1 + exp.1 || sz.2 != base.2 + exp.2) then
       f := f ++ [s!"violation step {k} ({op}): unique tables hold {sz.1 - base.1} leaves / {sz.2 - base.2} internal nodes, the live diagrams reach {exp.1} / {exp.2}"]
-    go rc rest res (k + 1) pool' base f
+    let szx := Vata.RcS.tableSizes xs'.st
+    if rc && !leaky' && (sz.1 != base.1 + szx.1 || sz.2 != base.2 + szx.2) then
+      f := f ++ [s!"mismatch step {k} ({op}): unique tables hold {sz.1 - base.1} / {sz.2 - base.2} nodes, the store model {szx.1} / {szx.2}"]
+    if xs'.st.hs.length != liveIx.length then
+      f := f ++ [s!"mismatch step {k} ({op}): the store model has {xs'.st.hs.length} live handles, the history {liveIx.length}"]
+    go rc rest res (k + 1) pool' base f xs' leaky'
 
 def check (rc : Bool) (args res : List String) : Except String (List String × String) := do
   let base ← getE ((kv res "base") >>= parsePair?) "missing base"
